@@ -17,7 +17,7 @@ func init() {
 		Run: runC19,
 		Explanation: "Static decision of the pagination structure: (1) CURSOR: every call of a paged listing function that sits inside a loop passes a start-name argument that changes between iterations (a phi / variable fed from the call's own result or from the last delivered entry); " +
 			"(2) SIB: the leveldb, leveldb2 and leveldb3 ListDirectoryPrefixedEntries each test the directory key prefix, skip the start name when not inclusive, decrement and test the limit per delivered entry, record lastFileName, stop when the callback returns false and decode through MaybeDecompressData; " +
-			"(3) Filer.ListDirectoryEntries asks for limit+1 and trims to limit; (4) expired entries are counted and skipped without reaching the caller's callback, and the valid-entries loop re-lists from the last name for the missed count. Ordering guarantees of the stores' iterators and pattern semantics are not decided.",
+			"(3) Filer.ListDirectoryEntries asks for limit+1 and trims to limit; (4) expired entries are counted and skipped without reaching the caller's callback, and the valid-entries loop re-lists from the last name for the missed count. Ordering guarantees of the stores' iterators and pattern semantics are not decided. Also decided: pages shortened by skipped entries are refilled in a loop whose condition tests the refill's own skipped count, resuming exclusively behind the last cursor for exactly the missing count; every entry the pattern filter swallows is counted; the generic prefix filter tests the limit between any two deliveries and returns the last delivered name as cursor when it stops at the limit.",
 		Assumptions: []string{"leveldb iterators return keys in order (trusted library behaviour)"},
 		Trusted:     append([]string{"github.com/syndtr/goleveldb iterator order"}, baseTrusted...),
 	})
